@@ -216,7 +216,11 @@ def main(tier: str) -> int:
         for name, expected in aims.items():
             fn = getattr(X, name)
             numba_seed(chk.seed * 1000 + 8_000_000 + n)
-            got = {tuple(int(x) for x in fn(ps2, one, one)) for _ in range(60 * len(expected) * (2 if name == "two_point_crossover" else 1))}
+            try:
+                got = {tuple(int(x) for x in fn(ps2, one, one)) for _ in range(60 * len(expected) * (2 if name == "two_point_crossover" else 1))}
+            except Exception as e:  # noqa
+                chk.fail("a crossover raises on valid parents", {"operator": name, "parents": [a, b], "error": repr(e)[:160]}, {"fn": name, "clause": "raises"})
+                continue
             chk.count("aimed_coverage_" + name)
             chk.case(("aimed", name, n))
             if got != expected:
